@@ -31,6 +31,7 @@ type replica struct {
 	db      *simdb.DB
 	app     *App
 	halted  string
+	swallowedIOErr bool // an injected I/O error inside a Commit did not stop the application
 	calls   uint64
 	lastCommitEvents int
 	height  int64
@@ -231,6 +232,12 @@ func (e *Exec) compareReplica(r *replica, callName, want, got string) {
 		prop, oracle = "C11", "twin-divergence"
 	}
 	attrs := map[string]string{"call": callName, "field": diffField(want, got)}
+	if r.swallowedIOErr {
+		// a write of an earlier Commit failed and the application carried on: from there on it has to stay equal to
+		// the run that was not disturbed ("the same hash as an uninterrupted run")
+		prop, oracle = "C13", "divergence-after-io-error"
+		attrs["io_error"] = "swallowed"
+	}
 	e.addViol(viol(prop, oracle, e.step, attrs, "replica %d (pruning %s, map seed %d, noise %v) answered %s to %s where replica 0 answered %s",
 		r.idx, r.cfg.Pruning, r.cfg.MapSeed, r.cfg.Noise, got, callName, want))
 }
@@ -1080,16 +1087,27 @@ func (e *Exec) commit(bi int, rec *blockRecord, h int64) {
 				}
 				k = k % n
 			}
-			r.db.CrashBefore(start + k)
+			if crash.IOErr {
+				r.db.FailWrite(start + k)
+			} else {
+				r.db.CrashBefore(start + k)
+			}
 		}
 		var resp abci.ResponseCommit
+		ioBefore := r.db.IOFailures
 		p := e.call(r, func() { resp = r.app.Commit() })
 		r.db.CrashBefore(-1)
 		if p != nil {
 			if c, ok := p.(simdb.Crash); ok {
-				e.res.Stats.Fault("crash_in_commit:" + labelClass(c.Label))
+				attrs := map[string]string{"crash_before": labelClass(c.Label), "crash_after": lastLabelClass(r.db.Log())}
+				if c.IOError {
+					e.res.Stats.Fault("io_error_in_commit:" + labelClass(c.Label))
+					attrs["io_error"] = "true"
+				} else {
+					e.res.Stats.Fault("crash_in_commit:" + labelClass(c.Label))
+				}
 				e.res.Stats.C("crash_points_fired", 1)
-				e.recover(r, h, rec, canonHash, "crash_in_commit", map[string]string{"crash_before": labelClass(c.Label), "crash_after": lastLabelClass(r.db.Log())})
+				e.recover(r, h, rec, canonHash, "crash_in_commit", attrs)
 				if e.stopped {
 					return
 				}
@@ -1099,7 +1117,12 @@ func (e *Exec) commit(bi int, rec *blockRecord, h int64) {
 			continue
 		}
 		if crash != nil {
-			e.res.Stats.C("crash_points_not_reached", 1)
+			if crash.IOErr && r.db.IOFailures > ioBefore {
+				r.swallowedIOErr = true
+				e.res.Stats.Probe("io_error_in_commit_swallowed_by_application")
+			} else {
+				e.res.Stats.C("crash_points_not_reached", 1)
+			}
 		}
 		r.lastCommitEvents = len(r.db.Log())
 		if countHook != nil && r.idx == 1 {
